@@ -59,7 +59,10 @@ def reply (l : Str) : String := "ok " ++ Driver.hexOfUnits l
 def runFormatter (f : Formatter) (evs : List Ev) (ns : List Str := []) : String :=
   match f with
   | .xml c k r => if evs.all Ev.valid then reply (renderAll r (serialize cc c k evs)) else "ERR"
-  | .text _ => reply (textMethod evs)
+  | .text enc =>
+    match textMethodEnc XalanModel.Generated.C08.textReportsUnrepresentable (maxCharOf (if enc.isEmpty then utf8 else enc)) evs with
+    | some t => reply t
+    | none => "ERR"
   | .html enc dsys dpub doIndent amount esc om =>
     match Html.serializeHtml { encoding := enc, doctypeSystem := dsys, doctypePublic := dpub, doIndent := doIndent,
                                indent := amount, escapeURLs := esc, omitMeta := om, nsPrefixes := ns,
